@@ -515,7 +515,8 @@ def special_C19(tier, seed, harness, work):
     with vlib.Lock("go-race"):
         binp = os.path.join(vlib.HARNESS, "bin", "harness-race")
         shutil.copy(os.path.join(REPO, "go.sum"), os.path.join(vlib.HARNESS, "go.sum"))
-        rc, out = vlib.run(["go", "build", "-race", "-tags", "verif", "-o", binp, "."], cwd=vlib.HARNESS, env=vlib.GOENV)
+        mf = ["-modfile", os.path.join(vlib.HARNESS, "go.alt.mod")] if vlib.REPO != "/repo" else []
+        rc, out = vlib.run(["go", "build"] + mf + ["-race", "-tags", "verif", "-o", binp, "."], cwd=vlib.HARNESS, env=vlib.GOENV)
     if rc != 0:
         rp = os.path.join(VERIF, "replays", "C19-build.txt")
         open(rp, "w").write("race-enabled harness does not build:\n" + out)
